@@ -9,8 +9,11 @@
        file and a second round trip changes nothing" -- the decimal printed for fl d is d again.
        With a relative error bound  |fl y - y| <= u |y|  (binary64: u = 2^-53, barring
        overflow/underflow) that is  u |d| < 10^-N / 2, i.e. |d| < 10^-N / (2u): for N = 6,
-       |d| < 4.5e9.  Beyond that bound the spacing of the floats exceeds the printed unit; the
-       statement for that range (the float printed is then the float itself) is not proved here.
+       |d| < 4.5e9;
+     - or, with NO bound on the magnitude (Section Proj): the data lie in a set F and fl y is at
+       least as close to y as every element of F (round to nearest onto the binary64 numbers).
+       Then the parser's result on the decimal printed for x in F is at most as far from it as x,
+       and at a tie the printed last digit is even, so it is printed as the same decimal again.
    That fl maps into the binary64 numbers is not used. *)
 From Coq Require Import ZArith QArith Qabs Qcanon Lia Lqa Bool List Arith.
 From OV Require Import Base.Panic.
